@@ -115,6 +115,8 @@ type result struct {
 	Text  string `json:"text,omitempty"` // SSA listing (dropped when huge)
 	Gates int    `json:"gates"`
 	Where string `json:"where,omitempty"`
+	// Reused: the last of two or three compilations on one Compiler.
+	Reused bool `json:"reused,omitempty"`
 }
 
 type sink struct{ bytes.Buffer }
@@ -152,6 +154,11 @@ const maxText = 256 << 10
 // params.  A panic of the compiler is reported as an error outcome (the
 // property is about equal results, not about which programs compile).
 func compileWith(cs Case, params *utils.Params) (res result) {
+	return compileOn(cs, params, compiler.New(params))
+}
+
+// compileOn compiles the measured program on the given Compiler instance.
+func compileOn(cs Case, params *utils.Params, c *compiler.Compiler) (res result) {
 	defer func() {
 		if r := recover(); r != nil {
 			res = result{Err: fmt.Sprintf("panic: %v", r)}
@@ -161,7 +168,6 @@ func compileWith(cs Case, params *utils.Params) (res result) {
 	params.SSAOut = out
 	defer func() { params.SSAOut = nil }()
 
-	c := compiler.New(params)
 	var err error
 	var marshal bytes.Buffer
 	if cs.Kind == "repo" {
@@ -236,6 +242,18 @@ func measure(cs Case, root string, rep int) result {
 			}
 			compileHist(cs, h, hp)
 		}
+	}
+	if rep%4 == 3 && !strings.Contains(mainSource(cs), "intern(") {
+		// "Repeated compilations": the same Compiler instance compiles
+		// the program a second (and third) time; the last result counts.
+		c := compiler.New(params)
+		compileOn(cs, params, c)
+		if rep%8 == 7 {
+			compileOn(cs, params, c)
+		}
+		x := compileOn(cs, params, c)
+		x.Reused = true
+		return x
 	}
 	return compileWith(cs, params)
 }
@@ -705,6 +723,9 @@ func judge(res []result) (sig, what string) {
 					initOrder(base.Text), initOrder(r.Text), detail)
 			}
 		}
+		if r.Reused {
+			cause += "/compiler-instance-reused"
+		}
 		if r.Circ != base.Circ {
 			return "circuit/" + cause, fmt.Sprintf(
 				"Circuit.Marshal differs: %s gives %s (%d gates), %s gives %s (%d gates); SSA %s; %s",
@@ -810,6 +831,9 @@ func run(cs Case) ev.Outcome {
 	for r := 0; r < cs.Reps; r++ {
 		x := measure(cs, root, r)
 		x.Where = fmt.Sprintf("in-process compilation %d", r)
+		if x.Reused {
+			x.Where += " (the same Compiler instance compiled the program before)"
+		}
 		if r > 0 && x.SSA == res[0].SSA {
 			x.Text = ""
 		}
